@@ -346,12 +346,7 @@ class UnitaryBuilder(Unitary):
 
         perm = left_perm + right_perm
         a = np.transpose(self.tensor, perm)
-        a = np.reshape(
-            a, (
-                2 ** (self.num_qudits - len(location)),
-                2 ** (self.num_qudits - len(location)),
-                2 ** len(location),
-                2 ** len(location),
-            ),
-        )
+        loc_dim = int(np.prod([self.radixes[q] for q in location]))
+        env_dim = self.dim // loc_dim
+        a = np.reshape(a, (env_dim, env_dim, loc_dim, loc_dim))
         return np.trace(a)
